@@ -141,7 +141,8 @@ class LRTDP(Plans):
 
     def lrtdp(self, mdp : MarkovDecisionProcess, heuristic=None, iterations=None):
         # Ghallab, Nau, Traverso: Algorithm 6.17
-        self.res.V = defaultdict2(heuristic)
+        # absorbing states are worth 0 whatever the heuristic says about them
+        self.res.V = defaultdict2(lambda s: 0 if mdp.is_absorbing(s) else heuristic(s))
         self.res.action_orders = dict()
 
         # Keeping track of "labels": which states have been solved
